@@ -1089,6 +1089,12 @@ func (p *Pointer) ScriptHash() util.Uint160 {
 	return p.hash
 }
 
+// Script returns the script the pointer was created for. It must not be
+// modified.
+func (p *Pointer) Script() []byte {
+	return p.script
+}
+
 // Position returns the pointer item position.
 func (p *Pointer) Position() int {
 	return p.pos
